@@ -76,6 +76,28 @@ def run_history(ops):
             elif k == 'settype':
                 mid.type = op[1]
                 lines.append('done')
+            elif k == 'overlap':
+                # one observation in the middle of another one (no edit in between): neither may disturb the other
+                try:
+                    it = iter(mid)
+                    seen = []
+                    for _ in range(op[1]):
+                        m = next(it, None)
+                        if m is None:
+                            break
+                        seen.append((ident(m), m.type, m.time))
+                    inner = observe(mid, op[2])
+                    seen += [(ident(m), m.type, m.time) for m in it]
+                except TypeError:
+                    seen, inner = 'err TypeError', observe(mid, op[2])
+                fresh = mido.MidiFile(type=1, ticks_per_beat=mid.ticks_per_beat, tracks=copy.deepcopy(mid.tracks))
+                fresh.type = mid.type
+                if seen != observe(fresh, 'iter') and fail is None:
+                    fail = (f'an iteration during which {op[2]} was observed yielded {str(seen)[:200]}, an undisturbed one '
+                            f'{str(observe(fresh, "iter"))[:200]}')
+                elif inner != observe(fresh, op[2]) and fail is None:
+                    fail = f'{op[2]} observed in the middle of an iteration gives {str(inner)[:160]}, on a fresh file {str(observe(fresh, op[2]))[:160]}'
+                lines.append(None)
             elif k == 'iteredit':
                 # an iteration that is open while an edit happens: what it yields must be what SOME state of the contents gives
                 # (the contents when it started, or the contents after the edit) - never a mixture of the two
@@ -210,6 +232,8 @@ def gen(ck):
     counter = _Ids()
 
     def ev(eot_p=0.15):
+        if rng.random() < 0.12:
+            return (400000 + rng.randint(0, 899999), 0, rng.choice([0, 1, 5, 480]))       # a tempo change
         return (next(counter), 1 if rng.random() < eot_p else 0, rng.choice([0, 0, 1, 5, 480]))
     # exhaustive short histories over a reduced alphabet
     alpha = [('addtrack',), ('appendtrack', [(1, 0, 3)]), ('appendmsg', 0, (2, 0, 4)), ('settime', 0, 0, 7),
@@ -268,6 +292,8 @@ def gen(ck):
                 h.append(('settime', rng.randint(0, max(ntr - 1, 0)), rng.randint(0, 3), rng.choice([0, 1, 9, 1000])))
             elif r < 0.67:
                 h.append(('settype', rng.choice([0, 1, 1, 2])))
+            elif r < 0.685:
+                h.append(('overlap', rng.randint(0, 5), rng.choice(['length', 'iter', 'merged', 'play'])))
             elif r < 0.70 and ntr:
                 i = rng.randint(0, ntr - 1)
                 kind = rng.choice(['append', 'droptrack', 'settime', 'settime', 'removemsg', 'removemsg'])
@@ -288,6 +314,14 @@ def gen(ck):
                 h.append((rng.choice(OBS),))
         h.append(('merged',))
         h.append((rng.choice(OBS),))
+        hs.append(h)
+    # an edit that changes a value into another one with the SAME hash (hash(n) == hash(n + 2**61 - 1)) after an observation
+    for _ in range(300 if ck.tier == 'quick' else 5000):
+        t = [ev(0) for _ in range(rng.randint(1, 4))]
+        j = rng.randrange(len(t))
+        base = rng.choice([0, 3, 480])
+        h = [('appendtrack', t), ('settime', 0, j, base), (rng.choice(OBS),), ('settime', 0, j, base + 2 ** 61 - 1), ('merged',),
+             (rng.choice(['iter', 'length', 'merged']),), ('settime', 0, j, base), ('merged',)]
         hs.append(h)
     return hs
 
